@@ -12,7 +12,7 @@ from collections import Counter, defaultdict
 import astgen
 import sqltie
 import t2tie
-from common import Check, load_known, rng, tier
+from common import seed, Check, load_known, rng, tier
 
 
 from sqltie import DIALECT_CLASSES as CLASSES, has_group_with_derived, has_where_in, has_window  # noqa: E402,F401
@@ -20,7 +20,8 @@ from sqltie import DIALECT_CLASSES as CLASSES, has_group_with_derived, has_where
 
 # per-dialect deviations on statements of recorded classes (dialect, class) -> recorded C09 class
 DIALECT_VARIANT_CLASSES = {("clickhouse", "K-C01-4"): "K-C09-1", ("exasol", "K-C02-8"): "K-C09-2",
-                           ("sqlite", "K-C01-4"): "K-C09-9", ("trino", "K-C01-4"): "K-C09-9", ("tsql", "K-C01-4"): "K-C09-9"}
+                           ("sqlite", "K-C01-4"): "K-C09-9", ("trino", "K-C01-4"): "K-C09-9", ("tsql", "K-C01-4"): "K-C09-9",
+                           ("exasol", "K-C01-7"): "K-C09-10", ("sqlite", "K-C01-7"): "K-C09-10", ("tsql", "K-C01-7"): "K-C09-10"}
 
 
 def main() -> int:
@@ -101,6 +102,41 @@ def main() -> int:
             if x.split("#")[0] != want:
                 spec_failures.append({"suite": "join-keyword-spelling", "dialect": d, "sql": sql, "tables": x.split("#")[0], "spec": want,
                                       "detail": "JOIN keyword kinds with blanks / tabs / line breaks between the words"})
+    # set operations whose operands are parenthesised or not, in every combination, at every place a query can stand
+    # (INSERT source, CTAS, derived table, CTE body, WHERE-IN sub-query): all dialects and the legacy analyzer must report
+    # every branch's table
+    import itertools as _it
+    par_recs, par_meta = [], []
+    for k in (2, 3):
+        for pat in _it.product((False, True), repeat=k):
+            for op in ("union all", "union"):
+                ops = [("(select a from u%d)" if pz else "select a from u%d") % (j + 1) for j, pz in enumerate(pat)]
+                body = (" %s " % op).join(ops)
+                want = "R=" + ",".join("<default>.u%d" % (j + 1) for j in range(k))
+                places = [("insert into o %s" % body, want + ";W=<default>.o"),
+                          ("create table o as %s" % body, want + ";W=<default>.o"),
+                          ("insert into o select s.a from (%s) s" % body, want + ";W=<default>.o"),
+                          ("insert into o select s.a from (%s) as s join w on 1 = 1" % body, want + ",<default>.w;W=<default>.o"),
+                          ("insert into o with c as (%s) select a from c" % body, want + ";W=<default>.o"),
+                          ("insert into o select a from w where a in (%s)" % body, want + ",<default>.w;W=<default>.o")]
+                for sql, wt in places:
+                    for d in ("ansi", "mysql", "postgres", "sparksql", "non-validating"):
+                        par_recs.append({"sql": sql, "dialect": d, "metadata": None, "config": {}})
+                        par_meta.append((d, sql, wt, pat))
+    if quick:
+        keep = [i for i in range(len(par_recs)) if (i // 5) % 3 == seed() % 3 or par_meta[i][0] == "non-validating"]
+        par_recs, par_meta = [par_recs[i] for i in keep], [par_meta[i] for i in keep]
+    dist["set_operand_parenthesisation"] = len(par_recs)
+    for (d, sql, wt, pat), x in zip(par_meta, t2tie.summaries(par_recs)):
+        ck.count()
+        if x.startswith("ERR:InvalidSyntax") or x.startswith("ERR:UnsupportedStatement"):
+            continue
+        ck.nontriv(("paren", d, sql))
+        got = x.split("#")[0]
+        srt = lambda t: "R=" + ",".join(sorted(t.split(";W=")[0][2:].split(","))) + ";W=" + t.split(";W=")[1]
+        if srt(got) != srt(wt):
+            spec_failures.append({"suite": "set-operand-parenthesisation", "dialect": d, "sql": sql, "tables": got, "spec": wt,
+                                  "detail": "operands parenthesised: %s" % (list(pat),)})
     # statements of the RECORDED defect classes of C01/C02 (which the generator above stays out of) and structural variants of
     # them: whatever the analysers answer there, C09 asks that they answer alike - the dialects among themselves, and the
     # legacy analyser at table level.  Where the legacy analyser is right and the sqlfluff side is not (the same defect seen
